@@ -108,6 +108,14 @@ def cases(tier, seed):
         for t in (table, [rows[1], rows[2], rows[-1]][:len(rows)]):
             for fs in ([1.0 + 2e-6j, -0.5 - 1e-6j, 0.25 + 3e-7j], [1.0 + 2e-9j, -0.5 + 1e-9j, 0.25 - 1e-9j], [complex(1.0, 0.0), complex(-0.5, 0.0), complex(0.25, 0.0)]):
                 yield _emit(kinds, 2, t, fs[:len(t)], 0.0)
+        # the whole operator in very small / very large units (all prefactors of order 1e-11, 1e-20, 1e+12): an operator is linear in its
+        # prefactors, the construction must not depend on their scale (agreement is judged relative to the largest entry)
+        tabs = [[rows[1]], table, [rows[1], rows[2], rows[-1]][:len(rows)]]
+        for t in tabs:
+            for scale in (1e-11, 1e-20, 1e12):
+                yield _emit(kinds, 2, t, [f * scale for f in (1.0, -0.5, 0.25)][:len(t)], 0.0)
+                if len(kinds) == 3:
+                    yield _emit(kinds, 2, t, [f * scale for f in (1.0, -0.5, 0.25)][:len(t)], 0.0, (0, 1))
     yield from cases_(tier, seed)
 
 
